@@ -23,7 +23,7 @@ EXPLANATION = (
 
 def run(S):
     T.KT = T.KindTable(S.driver, S.adts)
-    KL = 2 if S.tier == 'quick' else 4
+    KL = 3 if S.tier == 'quick' else 4
     KF = 3 if S.tier == 'quick' else 5
     found = flows.explore_parens(S)
     found += flows.explore_flow(S, KF, want=('C04',))
